@@ -50,7 +50,7 @@ package commands
 
 // "^[0-9]{3}" matches only strings of at least three characters (trusted fact about the constant pattern)
 //@ extern (*regexp.Regexp).MatchString (re *regexp.Regexp, s string) (result bool)
-//@   pure
+//@   deterministic
 //@   ensures result && re == Digits ==> len(s) >= 3
 
 // Lower-casing maps every ASCII byte to one byte, so a lower-cased name that ends in "."+domain+"." is at
